@@ -35,6 +35,7 @@ const (
 	offGUI      = 7
 	offCtl      = 13
 	offAux      = 19
+	offLoop     = 23 // protocol loop taking over a line that had to wait for it
 	maxSlots    = 900_000
 	maxTokens   = 1 << 16
 	maxEvents   = 1 << 17
@@ -181,6 +182,7 @@ func NewSim(seed uint64, cost CostModel) *Sim {
 		s.next[r+offGUI] = int32(r + offGUI + 1)
 		s.next[r+offCtl] = int32(r + offCtl + 1)
 		s.next[r+offAux] = int32(r + offAux + 1)
+		s.next[r+offLoop] = int32(r + offLoop + 1)
 	}
 	return s
 }
